@@ -132,6 +132,9 @@ def build(case: dict, d: Path) -> dict:
     elif o == "dot_license_not_utf8":
         (root / "src" / "b.py.license").write_bytes(b"SPDX-FileCopyrightText: 2020 Caf\xe9 \xff\nSPDX-License-Identifier: MIT\n")
         info["target"] = "src/b.py"
+    elif o == "licenses_same_identifier":
+        (root / "LICENSES" / "MIT.md").write_text("the same licence once more, as markdown\n")
+        info["names"] = ["LICENSES/MIT.md", "LICENSES/MIT.txt"]
     elif o == "license_dir_is_file":
         shutil.rmtree(root / "LICENSES")
         (root / "LICENSES").write_text("not a directory\n")
@@ -185,6 +188,8 @@ def run_case(case: dict) -> list:
                 except ValueError:
                     pass
             names = (info["config"] in text) if info["config"] != "dep5" else ("dep5" in text)
+            if info.get("names"):            # the diagnostic has to name the conflicting files themselves
+                names = all(n in text for n in info["names"])
             out.append({"tid": case["tid"] * 16 + len(out), "label": case["label"], "cmd": name, "devs": case["devs"], "other": case["other"],
                         "class": case["class"], "exit": r["exit"], "crashed": bool(r["exc"]), "namesFile": bool(names),
                         "mustFlag": must, "readProblem": read_problem, "tail": (r["exc"] or text)[-260:].encode("ascii", "replace").decode()})
@@ -223,7 +228,7 @@ def run(ctx: core.Ctx) -> int:
               "dep5_syntax": "invalid", "dep5_not_utf8": "invalid", "dep5_and_toml": "invalid", "dep5_bad_expression": "grey",
               "covered_nul_bytes": "valid", "covered_not_utf8": "valid", "covered_long_line": "valid", "covered_bad_expression": "valid",
               "covered_unreadable": "valid", "covered_vanishes": "valid", "licenseref_not_utf8": "valid", "license_dir_is_file": "grey",
-              "template_bad_syntax": "grey", "dot_license_not_utf8": "valid"}
+              "template_bad_syntax": "grey", "dot_license_not_utf8": "valid", "licenses_same_identifier": "invalid"}
     for o, cls in others.items():
         cmds = list(all_cmds) + (["convert-dep5"] if o.startswith("dep5") else [])
         if o in ("covered_unreadable", "covered_vanishes"):
@@ -236,6 +241,9 @@ def run(ctx: core.Ctx) -> int:
         c["tid"] = i + 1
     evl = ctx.pmap(run_case, cases, chunksize=4, daemon=False)
     events = [e for es in evl for e in es]
+    for c_, es in zip(cases, evl):
+        for e in es:                     # (events carry tid = 16 x case id + command index)
+            ctx._case_of[e["tid"]] = ("props.c16:run_case", c_)
     for ev in events[:: max(1, len(events) // 5)][:5]:
         ctx.samples.append({k: ev[k] for k in ("label", "cmd", "class", "exit", "crashed", "namesFile", "tail")})
     # every CLI invocation of the repository's own tests: exit status in {0, 1, 2}, no unhandled exception
